@@ -111,6 +111,29 @@ fn main() {
             let quiet = args.iter().any(|a| a == "--quiet");
             std::process::exit(driver::replay_file(&args[2], !quiet));
         }
+        "catalog" => {
+            // which catalogue definitions instantiate (Plain context, cwd = repository root)
+            use geodesy::prelude::*;
+            let repo = std::env::var("VERIF_REPO").unwrap_or_else(|_| "/repo".to_string());
+            let _ = std::env::set_current_dir(&repo);
+            let mut bad = 0;
+            for e in catalog::ELEMENTARY.iter().chain(catalog::PIPELINES.iter()) {
+                let mut ctx = Plain::new();
+                match util::catch(|| ctx.op(e.def)) {
+                    Ok(Ok(_)) => {}
+                    Ok(Err(err)) => {
+                        bad += 1;
+                        println!("FAILS  {:60} {}", e.def, err);
+                    }
+                    Err(p) => {
+                        bad += 1;
+                        println!("PANICS {:60} {}", e.def, p);
+                    }
+                }
+            }
+            println!("{} of {} catalogue definitions do not instantiate", bad, catalog::ELEMENTARY.len() + catalog::PIPELINES.len());
+            std::process::exit(if bad == 0 { 0 } else { 1 });
+        }
         "replay-exec" => {
             let quiet = args.iter().any(|a| a == "--quiet");
             std::process::exit(driver::replay_exec(&args[2], !quiet));
